@@ -50,6 +50,42 @@ type c08Rev struct {
 	Dt  bool   `json:"dt"`           // deletionTimestamp set: deleted in an earlier round, teardown pending, still listed
 	Sl  []int  `json:"sl,omitempty"` // keys of the objects that live in ObjectSlices referenced by spec.phases[*].slices
 	Sm  bool   `json:"sm,omitempty"` // the phases also reference an ObjectSlice that does not exist
+	// Shape of the Paused / Available status condition (optional; "" = the legacy rule of c08SetStatus:
+	// True when sp / av, otherwise Unknown / False or absent by the parity of the index, observedGeneration 0).
+	// Two characters: status T | F | U (Unknown; Paused: reason PartiallyPaused) | - (condition absent),
+	// then observedGeneration c (current: equals metadata.generation) | s (stale).  The adapters read the
+	// status only (IsStatusPaused / IsAvailable = status True, observedGeneration is not consulted), so
+	// sp / av — what the model is given — are (status == T); c08Norm enforces that.
+	Pc string `json:"pc,omitempty"`
+	Ac string `json:"ac,omitempty"`
+}
+
+// c08CondShapes: every status value x observedGeneration current / stale, and the condition absent.
+var c08CondShapes = []string{"Tc", "Ts", "Fc", "Fs", "Uc", "Us", "-c"}
+
+// c08Cond builds the condition a shape code describes (nil: absent).
+func c08Cond(typ, shape string, generation int64) *metav1.Condition {
+	if len(shape) != 2 || shape[0] == '-' {
+		return nil
+	}
+	c := metav1.Condition{Type: typ, Reason: "x"}
+	switch shape[0] {
+	case 'T':
+		c.Status = metav1.ConditionTrue
+	case 'F':
+		c.Status = metav1.ConditionFalse
+	default:
+		c.Status = metav1.ConditionUnknown
+		if typ == corev1alpha1.ObjectSetPaused {
+			c.Reason = "PartiallyPaused"
+		}
+	}
+	if shape[1] == 'c' {
+		c.ObservedGeneration = generation
+	} else {
+		c.ObservedGeneration = generation - 1
+	}
+	return &c
 }
 
 type c08Scn struct {
@@ -112,6 +148,7 @@ func c08ObjectSet(i int, r c08Rev, ns string) (*corev1alpha1.ObjectSet, []*corev
 		} // else: left empty, which is neither paused nor archived
 	}
 	c08SetStatus(os, i, r.Av, r.Sp, r.Co)
+	c08SetCondShapes(os, r.Pc, r.Ac)
 	// inline objects: first key in phase "a", the rest in phase "b"; namespace left empty for even
 	// keys (getObjects defaults it to the ObjectSet's namespace).
 	var phases []corev1alpha1.ObjectSetTemplatePhase
@@ -203,6 +240,27 @@ func c08SetStatus(os *corev1alpha1.ObjectSet, i int, av, sp bool, co []int) {
 			})
 		}
 	}
+}
+
+// c08SetCondShapes replaces the Paused / Available condition by the one the shape code describes.
+func c08SetCondShapes(os *corev1alpha1.ObjectSet, pc, ac string) {
+	set := func(typ, shape string) {
+		if shape == "" {
+			return
+		}
+		var out []metav1.Condition
+		for _, c := range os.Status.Conditions {
+			if c.Type != typ {
+				out = append(out, c)
+			}
+		}
+		if c := c08Cond(typ, shape, os.Generation); c != nil {
+			out = append(out, *c)
+		}
+		os.Status.Conditions = out
+	}
+	set(corev1alpha1.ObjectSetAvailable, ac)
+	set(corev1alpha1.ObjectSetPaused, pc)
 }
 
 // c08Client is a minimal recording client.Client.  Methods not overridden panic (nil embedded
@@ -533,6 +591,13 @@ func c08Norm(s *c08Scn) {
 	for i := range s.Revs {
 		if s.Revs[i].Obj == nil {
 			s.Revs[i].Obj = []int{}
+		}
+		// what the adapters read of a shaped condition
+		if pc := s.Revs[i].Pc; pc != "" {
+			s.Revs[i].Sp = pc[0] == 'T'
+		}
+		if ac := s.Revs[i].Ac; ac != "" {
+			s.Revs[i].Av = ac[0] == 'T'
 		}
 	}
 }
@@ -933,6 +998,35 @@ func TestVerifC08(t *testing.T) {
 	}
 	r.Extra["exhaustive_ctrl_count"] = count
 
+	// ---- 3b. condition shapes: the Paused condition of the OUTGOING revision and the Available condition
+	// of both revisions take every status value (True / False / Unknown-PartiallyPaused / absent) with
+	// observedGeneration current or stale; two-revision chains, every lifecycle of the outgoing revision,
+	// every controllerOf relation, both entry points, deployment paused or not.
+	count = 0
+	for _, lc := range []string{"A", "P", "X"} {
+		for _, pc := range c08CondShapes {
+			for _, ac := range c08CondShapes {
+				for _, ac2 := range []string{"Tc", "Ts", "Fc", "Uc", "-c"} {
+					for cls := 0; cls < 4; cls++ {
+						for _, pbp := range []bool{false, true} {
+							revs := []c08Rev{
+								{Rev: 1, Lc: lc, Pbp: pbp, Pc: pc, Ac: ac, Obj: []int{0}, Co: c08Co(0, cls)},
+								{Rev: 2, Lc: "A", Pc: "-c", Ac: ac2, Obj: []int{1}, Hm: true},
+							}
+							runBoth(c08Scn{Via: "arch", Revs: revs, Cur: true})
+							runBoth(c08Scn{Via: "ctrl", Revs: revs})
+							if pbp {
+								runBoth(c08Scn{Via: "ctrl", Revs: revs, Odp: true})
+							}
+							count += 2
+						}
+					}
+				}
+			}
+		}
+	}
+	r.Extra["exhaustive_condshape_count"] = count
+
 	// ---- 4. random chains up to length 8 (both entry points), keys from a 3-key universe
 	randKeys := func() []int {
 		out := []int{}
@@ -985,6 +1079,12 @@ func TestVerifC08(t *testing.T) {
 			if r.Rng.Intn(3) == 0 {
 				rv.Obj, rv.Sl = c08Split(r.Rng.Intn, rv.Obj)
 				rv.Sm = r.Rng.Intn(8) == 0
+			}
+			// a third of the revisions: explicit condition shapes (every status value, current / stale generation)
+			if r.Rng.Intn(3) == 0 {
+				rv.Pc = c08CondShapes[r.Rng.Intn(len(c08CondShapes))]
+				rv.Ac = c08CondShapes[r.Rng.Intn(len(c08CondShapes))]
+				rv.Sp, rv.Av = rv.Pc[0] == 'T', rv.Ac[0] == 'T'
 			}
 			s.Revs = append(s.Revs, rv)
 		}
